@@ -203,7 +203,8 @@ SniffFn(mm, items, f, acc) ==
               THEN [proto |-> "h1", filled |-> f + n, caps |-> Append(acc, cap)]
               ELSE SniffFn(mm, IF x > n THEN <<x - n>> \o Tail(items) ELSE Tail(items), f + n, Append(acc, cap))
 
-FnConstraint == pc = "sniff" \/ (pc = "serve" /\ saw = <<>> /\ pendOk)   \* the sniff phase and the just-decided states
+FnConstraint == /\ pc = "sniff" \/ (pc = "serve" /\ saw = <<>> /\ pendOk)   \* the sniff phase and the just-decided states
+                /\ ~ones /\ Len(hist) <= 6                                  \* (histories are exponential otherwise)
 FnAgrees == (pc = "serve" /\ saw = <<>>) => LET r == SniffFn(m, hist, 0, <<>>) IN r.proto = version /\ r.filled = prefix
 
 -----------------------------------------------------------------------------
